@@ -343,7 +343,7 @@ func (r *dumpReader) token(e goast.Expr, t *token.Token, path string, addr bool)
 	if t.ID > 0 {
 		used["ID"] = true
 		v, ok := got["ID"]
-		want := "token." + t.ID.String()
+		want := "token." + TokenIDName(t.ID)
 		if !ok {
 			return fmt.Sprintf("%s: token ID missing (expected %s)", path, want)
 		}
